@@ -247,7 +247,7 @@ theorem clause_quiet (sp : Spec) (w : World) (s : Step) :
 
 /-- what a step does to Registered / Initialized on the API server -/
 theorem step_flips (sp : Spec) {w : World} (h : Inv w) (s : Step)
-    (h1 : unregistered ∉ sp.taints) (h2 : unregistered ∉ sp.startup) :
+    (h1 : cleanTaints sp.taints) (h2 : cleanTaints sp.startup) :
     ((step sp w s).1.claim.conds.r.status = .true_ → w.claim.conds.r.status ≠ .true_ →
       (step sp w s).2.isRec = true ∧
       ((step sp w s).2.view.conds.r.status = .true_ ∨ registeredPre sp (step sp w s).1.nodes = true)) ∧
@@ -284,7 +284,7 @@ theorem step_instances (sp : Spec) (w : World) (s : Step) :
   · rw [he]; exact (reconcileLive_creates sp f co w _).2
 
 theorem clause_becomesTrue (sp : Spec) {w : World} (h : Inv w) (s : Step)
-    (h1 : unregistered ∉ sp.taints) (h2 : unregistered ∉ sp.startup) :
+    (h1 : cleanTaints sp.taints) (h2 : cleanTaints sp.startup) :
     becomesTrue sp (accOf w) (modelObs sp w s) = true := by
   have h' := inv_step sp h s
   have hl := h'.linst _ (claim_mem_versions _)
@@ -561,7 +561,7 @@ theorem clause_capacityDeletes (sp : Spec) (w : World) (s : Step) :
 
 /-- **every clause of the executable specification holds of every step of the model** -/
 theorem stepOK_model (sp : Spec) {w : World} (h : Inv w) (s : Step)
-    (h1 : unregistered ∉ sp.taints) (h2 : unregistered ∉ sp.startup) :
+    (h1 : cleanTaints sp.taints) (h2 : cleanTaints sp.startup) :
     stepOK sp (accOf w) (modelObs sp w s) = true := by
   unfold stepOK clauses
   simp only [List.all_cons, List.all_nil, Bool.and_true, Bool.and_eq_true]
@@ -632,7 +632,7 @@ def modelHistory (sp : Spec) : World → List Step → List StepObs
   | _, [] => []
   | w, s :: ss => modelObs sp w s :: modelHistory sp (step sp w s).1 ss
 
-theorem historyOK_model (sp : Spec) (h1 : unregistered ∉ sp.taints) (h2 : unregistered ∉ sp.startup)
+theorem historyOK_model (sp : Spec) (h1 : cleanTaints sp.taints) (h2 : cleanTaints sp.startup)
     (steps : List Step) : ∀ {w : World}, Inv w → historyOK sp (accOf w) (modelHistory sp w steps) = true := by
   induction steps with
   | nil => intro w _; rfl
